@@ -239,6 +239,7 @@ func (e *Env) doArmGateClose(op *Op) {
 // wfaults
 
 type faultWriter struct {
+	eof     bool // fail with io.EOF instead of the injected error value
 	full    bool // with once: the failing call accepts ALL its bytes and still returns the error (io.Writer allows n == len(p) with err != nil)
 	once    int // >= 0: the single Write call that would carry byte `once` fails (accepting nothing), later ones succeed
 	onceHit bool
@@ -252,15 +253,24 @@ type faultWriter struct {
 
 var errInjected = fmt.Errorf("injected write failure")
 
+// the error VALUE a destination fails with is the destination's business: a pipe whose reader went away or a quota
+// writer may well say io.EOF
+func (w *faultWriter) failure() error {
+	if w.eof {
+		return io.EOF
+	}
+	return errInjected
+}
+
 func (w *faultWriter) Write(p []byte) (int, error) {
 	if w.once >= 0 && !w.onceHit && w.n+len(p) > w.once {
 		w.onceHit = true
 		if w.full {
 			w.buf.Write(p)
 			w.n += len(p)
-			return len(p), errInjected
+			return len(p), w.failure()
 		}
-		return 0, errInjected
+		return 0, w.failure()
 	}
 	if w.limit >= 0 && w.n+len(p) > w.limit {
 		k := w.limit - w.n
@@ -269,7 +279,7 @@ func (w *faultWriter) Write(p []byte) (int, error) {
 		}
 		w.buf.Write(p[:k])
 		w.n += k
-		return k, errInjected
+		return k, w.failure()
 	}
 	w.buf.Write(p)
 	w.n += len(p)
@@ -411,7 +421,7 @@ func (e *Env) doWFaults(op *Op) {
 				}
 			}
 			for k := 0; k <= L+1+step; k += step {
-				w := &faultWriter{once: -1, limit: -1, closeAt: -1, ch: make(chan struct{})}
+				w := &faultWriter{once: -1, limit: -1, closeAt: -1, ch: make(chan struct{}), eof: (k/step)%3 == 1}
 				if mode == "fail" || mode == "retry" || mode == "failsync" {
 					w.limit = k
 				} else if mode == "fail1" || mode == "fullerr1" {
